@@ -28,7 +28,7 @@ fn l_two_repeats() -> Layout {
 fn l_super_dvorak() -> Layout { load_layout_text(crate::default_fancy_layouts::DEFAULT_LAYOUTS["super-dvorak"]).expect("super-dvorak") }
 
 fn cfg(alphabet: &[KeyCode], max_events: usize, max_tablet: usize, devs: usize, ticks: usize, interval_ms: u64) -> EnvCfg {
-  EnvCfg { alphabet: alphabet.to_vec(), max_events, max_tablet, devs, ticks, tablet_end: false, late_us: vec![1000, interval_ms * 1000 - 1000], exact_deadline_arrival: true, max_calls: 400, script: vec![], burst_sizes: vec![], max_bursts: 0 }
+  EnvCfg { alphabet: alphabet.to_vec(), max_events, max_tablet, devs, ticks, tablet_end: false, late_us: vec![1000, interval_ms * 1000 - 1000], exact_deadline_arrival: true, max_calls: 400, script: vec![], burst_sizes: vec![], max_bursts: 0, single_event_wakeups: false }
 }
 
 fn families(id: &str, tier: Tier) -> Vec<BFamily<'static>> {
@@ -44,6 +44,8 @@ fn families(id: &str, tier: Tier) -> Vec<BFamily<'static>> {
       add("chord CAPSLOCK->[], CAPSLOCK+J->LEFT over {CAPSLOCK,J}", l_chord(), cfg(&[CAPSLOCK, J], l, 0, d, 0, 30));
       add("no-repeat A->A Disabled, B->B over {A,B,LEFTSHIFT}", l_norepeat(), cfg(&[A, B, LEFTSHIFT], if q { 5 } else { 6 }, 0, if q { 1 } else { 1 }, 0, 30));
       if !q { add("plain A->B over {A,C}, longer histories", l_plain(), cfg(&[A, C], 8, 0, 1, 0, 30)); }
+      { let mut cl = cfg(&[A, B, LEFTSHIFT], if q { 6 } else { 7 }, 0, 0, 0, 30); cl.single_event_wakeups = true;
+        add("no-repeat layout over {A,B,LEFTSHIFT}: histories up to 6 (7) events, one per wake-up", l_norepeat(), cl); }
       // long bursts: a fixed alternating script delivered in one or two notifications of every size from a menu around
       // powers of two (a loop that reads at most k events per wake-up, k <= 257, is caught whatever k is)
       {
@@ -64,6 +66,8 @@ fn families(id: &str, tier: Tier) -> Vec<BFamily<'static>> {
       if !q { add("same layout, deviation bound 2", l_repeat(), cfg(&[A, B, LEFTCTRL], 4, 0, 2, 3, 30)); add("same layout over {B,LEFTCTRL}, up to 6 time-outs", l_repeat(), cfg(&[B, LEFTCTRL], 4, 0, 1, 6, 30)); }
       add("same layout with up to two tablet events", l_repeat(), cfg(&[B, LEFTCTRL], l, 2, if q { 0 } else { 1 }, if q { 2 } else { 3 }, 30));
       add("B->D Special{[E],130,30} over {B,D}: the output key of the repeating mapping is pressed physically", l_out_key(), cfg(&[B, D], l, 0, if q { 0 } else { 1 }, t, 30));
+      { let mut cl = cfg(&[A, B, LEFTCTRL], if q { 5 } else { 6 }, 0, 0, 3, 30); cl.single_event_wakeups = true;
+        add("repeat layout over {A,B,LEFTCTRL}: histories up to 5 (6) events, one per wake-up, up to 3 time-outs", l_repeat(), cl); }
       add("numeric edge: B->B Special{[C],0,1} (zero delay, 1 ms interval) over {B,A}", l_edge(), cfg(&[B, A], if q { 3 } else { 4 }, 0, if q { 1 } else { 1 }, if q { 4 } else { 6 }, 1));
       add("three Special mappings (chords [LEFTCTRL,C], [C,LEFTCTRL,B], []) over {B,J,K}", l_two_repeats(), cfg(&[B, J, K], if q { 4 } else { 5 }, 0, if q { 0 } else { 1 }, if q { 3 } else { 3 }, 10));
       if !q { add("super-dvorak repeat keys over {K,J,LEFTCTRL}", l_super_dvorak(), cfg(&[K, J, LEFTCTRL], 4, 0, 1, 4, 30)); }
@@ -75,6 +79,11 @@ fn families(id: &str, tier: Tier) -> Vec<BFamily<'static>> {
       add("chord layout over {CAPSLOCK,J} with up to 2 tablet events", l_chord(), cfg(&[CAPSLOCK, J], l, 2, if q { 1 } else { 1 }, 0, 30));
       add("repeat layout over {B,LEFTCTRL} with up to 2 tablet events and time-outs", l_repeat(), cfg(&[B, LEFTCTRL], l, 2, if q { 1 } else { 1 }, 2, 30));
       if !q { add("plain A->B over {A}, longer histories with up to 3 tablet events", l_plain(), cfg(&[A], 7, 3, 1, 0, 30)); }
+      // long histories, one event per wake-up: what survives in the mapper across On/Off (no-repeat and Special mappings, a foreign key)
+      let mut cl = cfg(&[A, C], if q { 7 } else { 8 }, 2, 0, 0, 30); cl.single_event_wakeups = true;
+      add("no-repeat A->A Disabled, B->B over {A,C}: histories up to 7 (8) events, one per wake-up, up to 2 tablet events", l_norepeat(), cl);
+      let mut cl2 = cfg(&[B, C], if q { 6 } else { 7 }, 2, 0, 1, 30); cl2.single_event_wakeups = true;
+      add("repeat layout over {B,C}: histories up to 6 (7) events, one per wake-up, up to 2 tablet events, one time-out", l_repeat(), cl2);
     }
     "C20" => {
       let (l, d) = if q { (4, 1) } else { (5, 1) };
@@ -163,7 +172,7 @@ fn chord_signature(_prop: &str, _clause: &str, _detail: &str) -> Option<String> 
 
 pub fn env_json(c: &EnvCfg) -> Value {
   json!({"alphabet": c.alphabet.iter().map(|k| format!("{}", k)).collect::<Vec<_>>(), "max_events": c.max_events, "max_tablet": c.max_tablet, "devs": c.devs, "ticks": c.ticks, "tablet_end": c.tablet_end, "late_us": c.late_us, "exact_deadline_arrival": c.exact_deadline_arrival, "max_calls": c.max_calls,
-    "script": c.script.iter().map(|e| match e { crate::keys::Event::Pressed(k) => format!("+{}", k), crate::keys::Event::Released(k) => format!("-{}", k) }).collect::<Vec<_>>(), "burst_sizes": c.burst_sizes, "max_bursts": c.max_bursts})
+    "script": c.script.iter().map(|e| match e { crate::keys::Event::Pressed(k) => format!("+{}", k), crate::keys::Event::Released(k) => format!("-{}", k) }).collect::<Vec<_>>(), "burst_sizes": c.burst_sizes, "max_bursts": c.max_bursts, "single_event_wakeups": c.single_event_wakeups})
 }
 
 pub fn replay_artefact(v: &Value) -> i32 {
@@ -178,6 +187,7 @@ pub fn replay_artefact(v: &Value) -> i32 {
     script: e["script"].as_array().map(|a| a.iter().filter_map(|x| x.as_str()).map(|t| { let k: KeyCode = serde_json::from_value(json!(&t[1..])).expect("key"); if t.starts_with('+') { crate::keys::Event::Pressed(k) } else { crate::keys::Event::Released(k) } }).collect()).unwrap_or_default(),
     burst_sizes: e["burst_sizes"].as_array().map(|a| a.iter().map(|x| x.as_u64().unwrap() as usize).collect()).unwrap_or_default(),
     max_bursts: e["max_bursts"].as_u64().unwrap_or(0) as usize,
+    single_event_wakeups: e["single_event_wakeups"].as_bool().unwrap_or(false),
   };
   let choices: Vec<u16> = v["choices"].as_array().unwrap().iter().map(|x| x.as_u64().unwrap() as u16).collect();
   let fail_at = v["fail_at"].as_u64().map(|k| k as usize);
